@@ -413,3 +413,22 @@ def execute(scn):
                          'start': start, 'executed': executed,
                          'apps': P['order']}
     return res
+
+
+def shrinks(scn):
+    P = scn['project']
+    if scn.get('fault'):
+        c = copy.deepcopy(scn)
+        c.pop('fault')
+        yield c
+    for a in ('vb', 'vc'):
+        if a in P['apps']:
+            c = copy.deepcopy(scn)
+            del c['project']['apps'][a]
+            c['project']['order'] = [x for x in c['project']['order']
+                                     if x != a]
+            yield c
+    if scn.get('hashseed'):
+        c = copy.deepcopy(scn)
+        c['hashseed'] = 0
+        yield c
